@@ -80,6 +80,35 @@ def check(rep, tier, seed):
     rep.coverage["cross_version_cuts"] = {"prefixes": len(xcuts), "accepted": len(xbad),
                                           "older_reader": sum(1 for c in xcuts if c["_r"] < c["_w"]),
                                           "newer_reader": sum(1 for c in xcuts if c["_r"] > c["_w"])}
+    # the same through the real derive macro: every compiled history family of the catalogue (records, an enum
+    # constructor, constructors that start as unit constructors), data of version w cut at every position and read
+    # by every other compiled version
+    from .. import catalogue as K
+    cenv = K.load()
+    rngs = C.rng_for(seed, "C08s")
+    sc = []
+    for fam, nv in (("H1v", 5), ("H2v", 5), ("HEv", 4), ("H3v", 3), ("HUv", 3)):
+        ids = [K.index_of(cenv, f"{fam}{i}") for i in range(nv)]
+        for w in range(1, nv):
+            for r in range(nv):
+                if r != w:
+                    for v in K.gen_values(rngs, cenv, ids[w], 3 if tier == "quick" else 40):
+                        sc.append({"cmd": "sx", "w": ids[w], "r": ids[r], "val": v, "sfx": "-"})
+    swd = C.workdir("C08s")
+    simpl, smod, shl = K.run_static(harness, model, cenv, sc, swd, "full")
+    scuts = []
+    for c, a, m in zip(sc, simpl, smod):
+        enc_part, _, dec_part = m.partition(" ; ")
+        if not (enc_part.startswith("ok ") and dec_part.startswith("ok ") and dec_part.endswith(" 0")):
+            continue            # pairs the format does not frame (the reader dropped a written field) are out of scope
+        hx = enc_part.split(" ")[1]
+        for k in range(len(hx) // 2):
+            scuts.append({"cmd": "sdec", "w": c["r"], "hex": hx[:2 * k] or "-", "_full": len(hx) // 2, "_k": k,
+                          "_wn": cenv[c["w"]]["name"], "_rn": cenv[c["r"]]["name"]})
+    cimpl, cmod, chl = K.run_static(harness, model, cenv, scuts, swd, "cut")
+    dis += [(l, a, b) for l, a, b in zip(chl, cimpl, cmod) if a != b]
+    sbad = [(c, l, a) for c, l, a, b in zip(scuts, chl, cimpl, cmod) if not a.startswith("err ") and b.startswith("err ")]
+    rep.coverage["cross_version_cuts_static"] = {"pairs": len(sc), "prefixes": len(scuts), "accepted": len(sbad)}
     C.proof_coverage(rep, ob, "C08")
     lines = [C.codec_line(c) for c in cuts]
     errs = {}
@@ -87,7 +116,7 @@ def check(rep, tier, seed):
         k = a.split("(")[0]
         errs[k] = errs.get(k, 0) + 1
     rep.coverage.update({
-        "evaluations": len(cuts) + len(xcuts) + len(ucuts), "distinct_nontrivial": len(set(lines)),
+        "evaluations": len(cuts) + len(xcuts) + len(ucuts) + len(scuts), "distinct_nontrivial": len(set(lines)),
         "rule": "encodings of the C01/C02 streams (built-in types to depth 5, derived and evolved records and enums, "
                 "nested) cut at every position (all cuts up to 40 bytes, 40 sampled cuts incl. the first and last two "
                 "beyond); every strict prefix must decode to Err (not Ok, not a panic) with the writing definition; "
@@ -101,6 +130,12 @@ def check(rep, tier, seed):
                       f"{C.codec_line(c)[:140]} -> {a[:80]}",
                       {"kind": "case", "env": c["env"], "case": C.codec_line(c), "implementation": a,
                        "cut": c["_k"], "of": c["_full"], "n_failing": len(ubad)})
+    if sbad and not bad:
+        c, l, a = sbad[0]
+        rep.violation(f"a strict prefix ({c['_k']} of {c['_full']} bytes) of data written by {c['_wn']} is accepted by {c['_rn']} "
+                      f"(derive macro): {l[:140]} -> {a[:80]}",
+                      {"kind": "case", "case": l, "implementation": a, "cut": c["_k"], "of": c["_full"],
+                       "writer": c["_wn"], "reader": c["_rn"], "n_failing": len(sbad)})
     if xbad and not bad:
         c, a = xbad[0]
         rep.violation(f"a strict prefix ({c['_k']} of {c['_full']} bytes) of version-{c['_w']} data is accepted by version {c['_r']}: "
@@ -113,4 +148,4 @@ def check(rep, tier, seed):
         rep.violation(f"a strict prefix ({c['_k']} of {c['_full']} bytes) is not rejected: {C.codec_line(c)[:160]} -> {a[:80]}",
                       {"kind": "case", "env": c["env"], "case": C.codec_line(c), "implementation": a,
                        "cut": c["_k"], "of": c["_full"], "n_failing": len(bad)})
-    C.report_broken(rep, ob, dis, "codec/dec-prefix", bool(bad) or bool(xbad) or bool(ubad))
+    C.report_broken(rep, ob, dis, "codec/dec-prefix", bool(bad) or bool(xbad) or bool(ubad) or bool(sbad))
